@@ -386,3 +386,39 @@ reg("C28", "exploration",
     "Sensors with nsample/interval/delay, plugin/user/contact/tactile sensors are left out; quaternions compared up to sign; grazing "
     "rays accepted within the displaced-ray interval. Two open known findings (static-body acceleration drops gravity; weld torque in cfrc_ext).",
     "reference-model oracle + canary/twin executions")
+
+reg("C25", "exploration",
+    "The analytic qDeriv (expanded from the D sparsity arrays) is compared with centred finite differences, at two step sizes, of "
+    "qfrc_passive - qfrc_bias + qfrc_actuator w.r.t. qvel taken from mj_forward on a mj_copyData twin, per documented integrator "
+    "semantics (implicit: all terms; implicitfast: RNE term dropped and symmetrised except standalone free-body blocks, where "
+    "mjd_freeMhat is checked against M - h FD); mjd_transitionFD A,B,C,D (forward/centred, two eps, NULL subsets) and all seven "
+    "mjd_inverseFD outputs are compared with the same differences formed from mj_step / mj_inverse on a twin restored with "
+    "mj_setState; the caller's integration state (and qacc for inverseFD) is compared bitwise before and after.",
+    "Entries outside the sparsity pattern of M, RK4 and delay models are outside the documented claim and skipped; diverging states "
+    "are skipped and counted; tendon armature is not generated. Five open known findings (raw-ctrl gain_vel, actuatorfrcrange clamp, "
+    "viscous-drag mjMINVAL guard, stale factorisation in ctrl/act columns, clampedDiff sign with flg_centered).",
+    "twin-execution finite-difference oracle with two-step-size smoothness screening")
+
+reg("C30", "fault_enumeration",
+    "Fault injection with twin-derived expected outcomes: 14 bad/boundary values x index classes of qpos, qvel, ctrl, qfrc_applied, "
+    "xfrc_applied, mocap_pos, mocap_quat x autoreset on/off x 4 integrators, plus organic blow-ups (timestep 0.2-5, velocities up to "
+    "1e4). An independent bad-value predicate applied to the injected state and to qacc of a forward-only twin gives the exact "
+    "expected warning set; after a triggered reset the state must equal mj_resetData + mj_step on a twin bitwise; a bad-ctrl step "
+    "must equal a zero-control twin; with autoreset off the counters rise and time advances with no reset; the state is finite after "
+    "every step with autoreset on. A subsample runs under ASan+UBSan.",
+    "|x| == mjMAXVAL is not bad; act injection is outside the statement; models whose reset state itself yields NaN qacc are skipped "
+    "and counted. Five open known findings (raw bad ctrl through implicit qDeriv, RK4 substages unchecked, non-finite qDeriv via mocap, "
+    "mj_transmission overrun with NaN site frame, mju_round(NaN)).",
+    "fault injection at the API boundary with twin-execution oracle + sanitizer subsample")
+
+reg("C32", "exploration",
+    "Metamorphic round trip on the real parser/compiler/writer: m1 = compile(spec); text = mj_saveXMLString (with and without "
+    "mj_copyBack); m2 = compile(parse(text)); every size and every field-table array plus mjOption/mjVisual/mjStatistic is compared "
+    "under per-class tolerances (integers, names, sizes identical; pass-through floats bit-equal; unit-norm 1e-11; compiler-derived "
+    "normwise 1e-9; printed-precision mode scaled to the digits written), and save(m2) must equal save(m1) (generation fixpoint). "
+    "Workload: 257 shipped models, targeted XMLs, generated models decorated with nested defaults, frames, replicate, keyframes, "
+    "custom data, inline assets and random option/compiler settings, and models built only through mjs_add*/mjs_set*.",
+    "Reader-side defects are invisible by construction (both sides pass the reader). The writer's integer snapping (|x-round(x)|<1e-12) "
+    "and -0 sign loss are accepted in exactly that form and counted. Twelve open known findings (frame child order, default keyframe "
+    "dropped, energy sensor element names, settotalmass/inertiagrouprange not written, 6-digit data vectors, fusestatic+frames, ...).",
+    "metamorphic round-trip twin comparison with field-table diff")
